@@ -2197,6 +2197,11 @@ def validate_meta(
         manager.log(f"Metadata abandoned for {id}: file {path} has different size")
         return None
 
+    if path.endswith(".pyi") != meta.path.endswith(".pyi"):
+        # A stub and a source file are analyzed differently even if their contents match.
+        manager.log(f"Metadata abandoned for {id}: file {path} replaces {meta.path}")
+        return None
+
     # Bazel ensures the cache is valid.
     mtime = 0 if bazel else int(st.st_mtime)
     if not bazel and (mtime != meta.mtime or path != meta.path):
@@ -2845,7 +2850,7 @@ class State:
                 # the above import is indistinguishable from something like this:
                 #     import pkg
                 #     import pkg.mod
-                if exist_removed_submodules(dependencies, manager):
+                if exist_removed_submodules(id, dependencies, manager):
                     state.needs_parse = True  # Same as above, the current state is stale anyway.
             state.size_hint = meta.size + MIN_SIZE_HINT
         else:
@@ -3863,12 +3868,14 @@ def exist_added_packages(suppressed: list[str], manager: BuildManager) -> bool:
     return False
 
 
-def exist_removed_submodules(dependencies: list[str], manager: BuildManager) -> bool:
+def exist_removed_submodules(id: str, dependencies: list[str], manager: BuildManager) -> bool:
     """Find if there are any submodules of packages that are now missing.
 
     This is conceptually an inverse of exist_added_packages().
     """
-    dependencies_set = set(dependencies)
+    # A package can import its own submodules (from . import mod), so it counts as
+    # one of the packages whose submodules may have disappeared.
+    dependencies_set = set(dependencies) | {id}
     for dep in dependencies:
         if "." not in dep:
             continue
